@@ -1,9 +1,11 @@
 \* mode M, today's code: all named deviations on; a crash is reachable only where a deviation's trigger explains it.
 CONSTANT Depths = {50, 150, 450}
+CONSTANT SelDepths = {50, 450}
 CONSTANT LightDepths = {50}
 CONSTANT Sizes = {1000}
 CONSTANT Cuts = {0, 7, 19}
 CONSTANT SafeDepth = 100
+CONSTANT SafeSel = 200
 CONSTANT SafeChain = 100
 CONSTANT HeavyTransports = {"execute", "json", "ws"}
 CONSTANT Wide = FALSE
